@@ -4,8 +4,10 @@ package props
 
 import (
 	"bytes"
+	"encoding/json"
 	"fmt"
 	"math"
+	"strings"
 	"testing"
 
 	"github.com/fluhus/biostuff/formats/newick"
@@ -192,6 +194,17 @@ func writeNewick(root *newick.Node) ([]byte, error) {
 }
 
 func checkC05(c C05Case, o *Obs) error {
+	// earlier readers in this process that stopped on a syntax error leave nothing behind
+	// (one per case, so that whatever it leaves is met by this case's first real read)
+	{
+		bads := []string{"(a:1.2.3,b);", "a b;", "(a,b));(", "'x", "(a:1e,b)c;x", "a:b;"}
+		js, _ := json.Marshal(c)
+		for _, rerr := range newick.Reader(strings.NewReader(bads[len(js)%len(bads)])) {
+			if rerr != nil {
+				break
+			}
+		}
+	}
 	if len(c.Trees) == 0 {
 		return nil
 	}
